@@ -5,8 +5,10 @@ set -e
 cd "$(dirname "$0")"
 export GOFLAGS=-mod=mod GOPROXY=off
 mkdir -p build evidence/replay
-cp /repo/go.sum harness/go.sum
-(cd harness && go build -tags verif -o ../build/harness .)
+rm -rf build/hsrc && mkdir -p build/hsrc
+for f in $(git ls-files harness 2>/dev/null || ls harness | sed 's|^|harness/|'); do [ -f "$f" ] && cp "$f" build/hsrc/; done
+cp /repo/go.sum build/hsrc/go.sum
+(cd build/hsrc && go build -tags verif -o ../harness .)
 ./build/harness gen -out coq/gen
 ./build/harness gen-codec -out coq/gen
 (cd coq && coq_makefile -f _CoqProject -o Makefile >/dev/null 2>&1 && timeout 3000 make -j16 2>&1 | grep -v '^COQC\|^COQDEP\|^Closed under' || true)
